@@ -745,4 +745,86 @@ def readSurfedges (verts : List Nat) (idx : List Int) (edgeRecs : List (List Val
   | .error e => .error e
   | .ok es => readSurfIdx es idx
 
+
+/-! ## water leaf info (`_lmp_write_water_leaf_info` / `_lmp_read_water_leaf_info`) -/
+
+structure WaterV where
+  surfaceZ : UInt32
+  minZ : UInt32
+  texinfo : Nat
+deriving Repr, DecidableEq
+
+def writeWater : IdFinder → List WaterV → List (List Val) × IdFinder
+  | f, [] => ([], f)
+  | f, w :: ws =>
+    ([.f32 w.surfaceZ, .f32 w.minZ, .int (f.call idKey w.texinfo).1] :: (writeWater (f.call idKey w.texinfo).2 ws).1,
+     (writeWater (f.call idKey w.texinfo).2 ws).2)
+
+def readWater (texinfo : List Nat) : List (List Val) → Except LumpErr (List WaterV)
+  | [] => .ok []
+  | r :: rs =>
+    match r with
+    | [.f32 sz, .f32 mz, .int ti] =>
+      match pyIdx texinfo ti, readWater texinfo rs with
+      | some t, .ok ws => .ok ({ surfaceZ := sz, minZ := mz, texinfo := t } :: ws)
+      | _, _ => .error .badData
+    | _ => .error .badData
+
+/-! ## VitaminSource faces (`_write_faces_common` / `_read_faces_common`, `is_vitamin` branch) -/
+
+structure VFaceV where
+  plane : Nat
+  texinfo : Option Nat
+  dispinfo : Int
+  edges : List Nat
+  lmMinsX : Int
+  lmMinsY : Int
+  lmSizeX : Int
+  lmSizeY : Int
+  flags : Int
+deriving Repr, DecidableEq
+
+structure VFaceSt where
+  fTex : IdFinder
+  fPlane : IdFinder
+  eEdges : IdEFinder
+
+def writeVFace (bounded : Bool) (s : VFaceSt) (f : VFaceV) : List Val × VFaceSt :=
+  let rt : Int × IdFinder :=
+    match f.texinfo with
+    | some t => (((s.fTex.call idKey t).1 : Nat), (s.fTex.call idKey t).2)
+    | none => (-1, s.fTex)
+  let rp := s.fPlane.call idKey f.plane
+  let re := s.eEdges.call bounded idKey f.edges
+  ([.int rp.1, .int rt.1, .int f.dispinfo, .int re.1, .int f.edges.length,
+    .int f.lmMinsX, .int f.lmMinsY, .int f.lmSizeX, .int f.lmSizeY, .int f.flags],
+   { fTex := rt.2, fPlane := rp.2, eEdges := re.2 })
+
+def writeVFaces (bounded : Bool) : VFaceSt → List VFaceV → List (List Val) × VFaceSt
+  | s, [] => ([], s)
+  | s, f :: fs =>
+    ((writeVFace bounded s f).1 :: (writeVFaces bounded (writeVFace bounded s f).2 fs).1,
+     (writeVFaces bounded (writeVFace bounded s f).2 fs).2)
+
+/-- the reader always indexes texinfo (`texinfo = self.texinfo[texinfo_ind]`) -/
+def readVFace (texinfo planes surfedges : List Nat) (r : List Val) : Except LumpErr VFaceV :=
+  match r with
+  | [.int pl, .int ti, .int di, .int fe, .int ne, .int mx, .int my, .int sx, .int sy, .int fl] =>
+    match pyIdx planes pl, pyIdx texinfo ti with
+    | some p, some t =>
+      .ok { plane := p, texinfo := some t, dispinfo := di, edges := pySlice surfedges fe.toNat ne.toNat,
+            lmMinsX := mx, lmMinsY := my, lmSizeX := sx, lmSizeY := sy, flags := fl }
+    | _, _ => .error .badData
+  | _ => .error .badData
+
+def readVFaces (texinfo planes surfedges : List Nat) : List (List Val) → Except LumpErr (List VFaceV)
+  | [] => .ok []
+  | r :: rs =>
+    match readVFace texinfo planes surfedges r with
+    | .error e => .error e
+    | .ok f =>
+      match readVFaces texinfo planes surfedges rs with
+      | .error e => .error e
+      | .ok fs => .ok (f :: fs)
+
 end C11
